@@ -44,19 +44,10 @@ def minimise(mod, case, res, budget_s):
         if time.time() - t0 > budget_s:
             return False
         tried += 1
-        import signal
-
-        def _alarm(signum, frame):
-            raise TimeoutError("candidate run too slow")
-        old = signal.signal(signal.SIGALRM, _alarm)
-        signal.alarm(int(min(60, max(5, budget_s))))
         try:
-            r = mod.run(cand)
-        except Exception:
+            r = common.with_alarm(min(60, max(5, budget_s)), mod.run, cand)
+        except (Exception, common.HardTimeout):
             return False
-        finally:
-            signal.alarm(0)
-            signal.signal(signal.SIGALRM, old)
         uv = unknown_violations(r, prop)
         if uv and vkey(uv[0]) == target:
             best_case, best_res = cand, r
@@ -104,8 +95,11 @@ def minimise(mod, case, res, budget_s):
         chunk = max(1, chunk // 2) if chunk > 1 else (1 if shrunk else 0)
     # final: use the trace actually consumed by the minimal run (drops unused decisions)
     final = dict(best_case, decisions=best_res.get("trace", best_case.get("decisions")))
-    r = mod.run(final)
-    uv = unknown_violations(r, prop)
+    try:
+        r = common.with_alarm(300, mod.run, final)
+    except (Exception, common.HardTimeout):
+        r = None
+    uv = unknown_violations(r, prop) if r else []
     if uv and vkey(uv[0]) == target:
         best_case, best_res = final, r
     return best_case, best_res, tried
